@@ -23,6 +23,7 @@ CORPUS = {
     'B1': ('basic.rs', False), 'B2': ('basic.rs', False), 'B3': ('basic.rs', False), 'B4': ('basic.rs', False),
     'B5': ('basic.rs', False), 'B6': ('basic.rs', False), 'B7': ('basic.rs', False), 'B8': ('basic.rs', False),
     'E1': ('basic.rs', False), 'E3': ('basic.rs', False),
+    'K1': ('callbacks.rs', False),
     'S1': ('skip.rs', False), 'S2': ('skip.rs', False), 'S3': ('skip.rs', False),
     'L1': ('literal.rs', False), 'I2': ('literal.rs', False),
     'P2': ('twins.rs', False), 'P2T': ('twins.rs', False), 'M1B': ('twins.rs', False), 'M2B': ('twins.rs', False),
@@ -54,14 +55,16 @@ pub broadcast proof fn axiom_vlex_u8_slice_len(s: &[u8])
 '''
 PRELUDE_MODS = ('pub mod internal { pub use super::{CallbackResult, CallbackRetVal, LexerInternal}; pub struct SkipResult; pub trait SkipRetVal {} }\n')
 
-SKIP_FN_RE = r"pub fn skip<'source, Token: Logos<'source>>\(_: &mut Lexer<'source, Token>\) -> Skip \{\s*Skip\s*\}"
+SKIP_FN_RE = r"pub fn skip<'source, Token: Logos<'source>>\(\s*(\w+): &mut Lexer<'source, Token>,?\s*\) -> Skip \{\s*Skip\s*\}"
 
 def skip_fn(repo):
-    """the runtime's `logos::skip` callback (src/lib.rs), copied; its unnamed parameter gets a name and the contract `lexer unchanged`"""
+    """the runtime's `logos::skip` callback (src/lib.rs), copied; its (unnamed) parameter gets a name and the contract `lexer unchanged`"""
     src = open(os.path.join(repo, 'src', 'lib.rs')).read()
     m = re.search(SKIP_FN_RE, src)
     if not m: raise lexgen.LexGenError('src/lib.rs: fn skip not found in the expected shape')
-    text = m.group(0).replace('(_: &mut', '(lexer: &mut').replace('-> Skip {', '-> (r: Skip)\n    ensures *final(lexer) == *old(lexer),\n{')
+    text = m.group(0)
+    text = re.sub(r'\(\s*\w+: &mut', '(lexer: &mut', text, count=1)
+    text = text.replace('-> Skip {', '-> (r: Skip)\n    ensures *final(lexer) == *old(lexer),\n{')
     return text + '\n'
 
 def build_prelude(repo, work):
@@ -86,12 +89,13 @@ def build_prelude(repo, work):
 
 def _one(args):
     (name, cg, enum_text, cli, work, prelude, lex_req, lex_ens, bytes_view, canary) = args
+    sources = [open(os.path.join(DEFS_DIR, CORPUS[name][0])).read(), open(os.path.join(DEFS_DIR, '..', 'corpus.rs')).read()]
     tag = '%s_%s' % (name, cg) + ('_cn_' + re.sub(r'\W+', '_', canary) if canary else '')
     res = dict(defn=name, codegen=cg, tag=tag, canary=canary, failures=[], undecided=[], verified=0, errors=0)
     t0 = time.time()
     try:
         raw = lexgen.run_cli(cli, enum_text, work, '%s_%s' % (name, cg))
-        u = lexgen.transform(name, raw, lex_req, lex_ens, bytes_view=bytes_view, canary=canary)
+        u = lexgen.transform(name, raw, lex_req, lex_ens, bytes_view=bytes_view, canary=canary, sources=sources)
         lines, lm = u.render()
     except lexgen.LexGenError as e:
         res.update(status='undecided', reason='lexgen: %s' % e); return res
@@ -120,7 +124,7 @@ def _one(args):
         res.update(status='undecided', reason='verus did not finish within %d s' % TIMEOUT_S, wall_s=TIMEOUT_S,
                    rewrites=u.rewrites, inserted=u.inserted, fns=u.fns, n_states=len(u.state_fns)); return res
     res['wall_s'] = round(time.time() - t0, 2)
-    res.update(rewrites=u.rewrites, inserted=u.inserted, fns=u.fns, root=u.root, eoi_targets=sorted(u.eoi),
+    res.update(assumed=u.assumed, rewrites=u.rewrites, inserted=u.inserted, fns=u.fns, root=u.root, eoi_targets=sorted(u.eoi),
                source_ty=getattr(u, 'source_ty', '?'), n_states=len(u.state_fns))
     try:
         j = json.loads(p.stdout)
